@@ -168,6 +168,8 @@ def pv_enc(v):
         return "i" + big_str(v)
     if isinstance(v, str):
         return "s" + v
+    if isinstance(v, np.ndarray):
+        return "A[" + ";".join(pv_enc(x) for x in v) + "]"
     if isinstance(v, list):
         return "L[" + ",".join(pv_enc(x) for x in v) + "]"
     if isinstance(v, tuple):
@@ -186,6 +188,12 @@ def pv_dec(tok):
         return big_int(tok[1:])
     if tok.startswith("s"):
         return tok[1:]
+    if tok.startswith("A[") and tok.endswith("]"):
+        body = tok[2:-1]
+        return np.array([pv_dec(x) for x in body.split(";")] if body else [], dtype=int)
+    if tok.startswith("M[") and tok.endswith("]"):
+        body = tok[2:-1]
+        return np.array([[pv_dec(x) for x in r.split(";")] for r in body.split("|")] if body else [], dtype=int)
     if tok.startswith("L[") and tok.endswith("]"):
         body = tok[2:-1]
         return [pv_dec(x) for x in body.split(",")] if body else []
@@ -339,7 +347,7 @@ def _run_impl(line, extra=None):
         return v if st == "ok" else ("err TIMEOUT" if st == "timeout" else "err " + v)
     if op == "gen":
         # translated definitions (DswModel.Gen.*): the real function on the same wire values
-        fn = getattr(OP, t[1])
+        fn = getattr(OP, t[1], None) or getattr(SW, t[1])
         args = [pv_dec(x) for x in t[2:]]
         import contextlib
         import io
